@@ -633,15 +633,17 @@ impl<'a, T> ContextBase<'a, T> {
             .find(|(n, _)| n.node.as_str() == name)
             .map(|(_, value)| value)
             .cloned();
-        if value.is_none()
-            && let Some(default) = default
-        {
-            return Ok((Pos::default(), default()));
-        }
         let (pos, value) = match value {
             Some(value) => (value.pos, self.resolve_input_value(value)?),
             None => (Pos::default(), None),
         };
+        // The argument default applies when the argument is absent and also when it is
+        // bound to a variable that was not provided and has no default of its own.
+        if value.is_none()
+            && let Some(default) = default
+        {
+            return Ok((pos, default()));
+        }
         InputType::parse(value)
             .map(|value| (pos, value))
             .map_err(|e| e.into_server_error(pos))
